@@ -878,3 +878,48 @@ pub fn extra_local(thorough: bool, seed: u64, deadline: Instant) -> ExtraResult 
         json,
     }
 }
+
+/// Every burst inside the four stored checksum bytes: for each page of a 6-page file, every
+/// alteration of the stored checksum by one burst of 2..=16 bits (thorough: ..=20; all patterns
+/// whose first and last bit are flipped, at every position) - the reader's comparison of stored
+/// and calculated checksum must notice each of them, on its own without any help from the CRC's
+/// mathematics (the payload is intact, only the stored value changes).
+pub fn checksum_bursts(ctx: &Ctx) {
+    let img = file(0);
+    let pages = img.len() / 1024;
+    let page = ctx.pick("page", pages.min(6));
+    let max_len: u32 = if ctx.tier_thorough { 20 } else { 16 };
+    let len = 2 + ctx.pick("burst-length", (max_len - 1) as usize) as u32;
+    ctx.describe(|| format!("page {page} of a {pages}-page file: every burst of exactly {len} bits inside the stored checksum"));
+    let stored = u32::from_be_bytes(img[page * 1024 + 1020..page * 1024 + 1024].try_into().unwrap());
+    let inner = 1u64 << (len - 2);
+    let mut n = 0u64;
+    let res = guarded(|| -> Result<(), String> {
+        let mut work = img.clone();
+        for pos in 0..=(32 - len) {
+            for mid in 0..inner {
+                // first and last bit of the burst are flipped, the bits between them as `mid` says
+                let pat: u64 = 1 | (mid << 1) | (1u64 << (len - 1));
+                let x = ((pat as u32) << pos) ^ stored;
+                work[page * 1024 + 1020..page * 1024 + 1024].copy_from_slice(&x.to_be_bytes());
+                let mut r = PagedReader::new(Dev::new(work.clone()), 1024).map_err(|e| format!("PagedReader::new: {e}"))?;
+                r.seek_physical((page * 1024 + 8) as u64).map_err(|e| format!("seek: {e}"))?;
+                let mut b = [0u8; 4];
+                n += 1;
+                if r.read_exact(&mut b).is_ok() {
+                    return Err(format!("stored checksum {stored:08x} replaced by {x:08x} (burst of {len} bits at bit {pos}): data of page {page} was handed out"));
+                }
+            }
+        }
+        Ok(())
+    });
+    ctx.evals(n);
+    match res {
+        Err(pi) => ctx.violation(format!("{P}/panic/{}", pi.class()), format!("page reader panicked at {} ({})", pi.loc, pi.msg)),
+        Ok(Err(m)) => ctx.violation(format!("{P}/altered-checksum-accepted"), m),
+        Ok(Ok(())) => {
+            ctx.observe_u64((page as u64) << 8 | len as u64);
+            ctx.nontrivial();
+        }
+    }
+}
